@@ -453,12 +453,85 @@ package simpledb
 // C18 / C01: the hand-over channel between a rotation and the flusher is unbuffered: a rotation returns only after the flusher
 // took the previous memstore over (and that memstore's table is installed before the flusher takes the next one), so at most
 // one rotated memstore is ever outside both the read store and the table stack.
+// A new table manager: its own lock (not the database's), no tables, an empty current reader.
+//@ func NewSSTableManager
+//@   props C01 C18 C19
+//@   ensures [own-lock-and-empty-stack] r0 != nil && r0.managerLock != nil && r0.managerLock != dbLock && r0.databaseLock == dbLock && r0.basePath == basePath &&
+//@           len(r0.allSSTableReaders) == 0 && r0.currentReader != nil && r0.cmp == cmp
+//@   fresh r0
+//@   modifies nothing
+
+// Each option sets its own field of the option record and nothing else.
+//@ func MemstoreSizeBytes$1
+//@   props C01 C02 C13 C17
+//@   requires args != nil
+//@   ensures [sets-its-own-field] args.memstoreSizeBytes == n
+//@   modifies args.memstoreSizeBytes
+//@ func DisableCompactions$1
+//@   props C01 C02 C13 C17
+//@   requires args != nil
+//@   ensures [sets-its-own-field] !args.enableCompactions
+//@   modifies args.enableCompactions
+//@ func EnableAsyncWAL$1
+//@   props C01 C02 C13 C17
+//@   requires args != nil
+//@   ensures [sets-its-own-field] args.enableAsyncWAL
+//@   modifies args.enableAsyncWAL
+//@ func EnableDirectIOWAL$1
+//@   props C01 C02 C13 C17
+//@   requires args != nil
+//@   ensures [sets-its-own-field] args.enableDirectIOWAL
+//@   modifies args.enableDirectIOWAL
+//@ func CompactionRunInterval$1
+//@   props C01 C02 C13 C17
+//@   requires args != nil
+//@   ensures [sets-its-own-field] args.compactionRunInterval == interval
+//@   modifies args.compactionRunInterval
+//@ func CompactionFileThreshold$1
+//@   props C01 C02 C13 C17
+//@   requires args != nil
+//@   ensures [sets-its-own-field] args.compactionFileThreshold == n
+//@   modifies args.compactionFileThreshold
+//@ func CompactionMaxSizeBytes$1
+//@   props C01 C02 C13 C17
+//@   requires args != nil
+//@   ensures [sets-its-own-field] args.compactionMaxSizeBytes == n
+//@   modifies args.compactionMaxSizeBytes
+//@ func WriteBufferSizeBytes$1
+//@   props C01 C02 C13 C17
+//@   requires args != nil
+//@   ensures [sets-its-own-field] args.writeBufferSizeBytes == n
+//@   modifies args.writeBufferSizeBytes
+//@ func ReadBufferSizeBytes$1
+//@   props C01 C02 C13 C17
+//@   requires args != nil
+//@   ensures [sets-its-own-field] args.readBufferSizeBytes == n
+//@   modifies args.readBufferSizeBytes
+
 //@ func NewSimpleDB
 //@   assumed
 //@   props C18 C01
 //@   replay concurrent_db_race
 //@   bounded concurrent_db_race 6 goroutines x 250 (quick) / 2500 (thorough) random Put / Delete / Get steps on keys each goroutine owns, one handle, 300-byte memstore (constant rotation and flushing), compactor every 20 ms, synchronous and asynchronous log; every Get must return the goroutine's own last write; under the Go race detector
 //@   exit [C18,C01:flush-hand-over-is-unbuffered] r1 == nil ==> cap(r0.storeFlushChannel) == 0
+//@   exit [C01,C02,C13:options-reach-the-database] r1 == nil ==> r0.memstoreMaxSize == extraOpts.memstoreSizeBytes &&
+//@        r0.compactionFileThreshold == extraOpts.compactionFileThreshold && r0.compactedMaxSizeBytes == extraOpts.compactionMaxSizeBytes &&
+//@        r0.enableCompactions == extraOpts.enableCompactions && r0.enableAsyncWAL == extraOpts.enableAsyncWAL &&
+//@        r0.enableDirectIOWAL == extraOpts.enableDirectIOWAL && r0.compactionInterval == extraOpts.compactionRunInterval &&
+//@        r0.readBufferSizeBytes == extraOpts.readBufferSizeBytes && r0.writeBufferSizeBytes == extraOpts.writeBufferSizeBytes
+//@   exit [C01,C02:defaults-without-options] r1 == nil && len(extraOptions) == 0 ==> r0.memstoreMaxSize == MemStoreMaxSizeBytes &&
+//@        r0.compactionFileThreshold == NumSSTablesToTriggerCompaction && r0.compactedMaxSizeBytes == DefaultCompactionMaxSizeBytes &&
+//@        r0.enableCompactions && !r0.enableAsyncWAL && !r0.enableDirectIOWAL && r0.compactionInterval == DefaultCompactionInterval &&
+//@        r0.readBufferSizeBytes == DefaultReadBufferSizeBytes && r0.writeBufferSizeBytes == DefaultWriteBufferSizeBytes
+//@   exit [C01,C18:starts-closed-to-calls] r1 == nil ==> !r0.open && !r0.closed && r0.basePath == basePath && r0.rwLock != nil && r0.memStore != nil && r0.sstableManager != nil
+//@   exit [C01:one-empty-memstore-for-reads-and-writes] r1 == nil ==> r0.memStore.readStore == r0.memStore.writeStore && r0.memStore.writeStore != nil
+//@   loop 0
+//@     invariant extraOpts != nil
+//@     invariant [defaults-until-an-option-runs] len(extraOptions) == 0 ==> extraOpts.memstoreSizeBytes == MemStoreMaxSizeBytes &&
+//@               extraOpts.compactionFileThreshold == NumSSTablesToTriggerCompaction && extraOpts.compactionMaxSizeBytes == DefaultCompactionMaxSizeBytes &&
+//@               extraOpts.enableCompactions && !extraOpts.enableAsyncWAL && !extraOpts.enableDirectIOWAL &&
+//@               extraOpts.compactionRunInterval == DefaultCompactionInterval &&
+//@               extraOpts.readBufferSizeBytes == DefaultReadBufferSizeBytes && extraOpts.writeBufferSizeBytes == DefaultWriteBufferSizeBytes
 //@   ensures r1 == nil ==> r0 != nil
 //@   fresh r0
 
